@@ -1,3 +1,286 @@
+//! C06 - Event handlers run one at a time, depth-first, in the documented order.
+//!
+//! Engine E4: every handler program of a small grammar (smallest first) is executed by the REAL
+//! agent implementation inside the REAL agent runtime (`AgentRouteTask::run_agent()` under the
+//! controlled executor) and its recorded trace is compared with a reference interpreter of the
+//! documented semantics. Engine E1: the smallest programs additionally under every schedule with a
+//! bounded number of deviations from the canonical one.
+
+mod agent;
+mod prog;
+mod refint;
+
+use agent::{C6Agent, C6Lifecycle};
+use asys::agent::TruthLog;
+use asys::grid::{replay, run_grid, GridSpec};
+use asys::scripts::cmd;
+use asys::world::{set_agent_factory, set_checker, AsWorld, Cfg};
+use prog::*;
+use serde_json::json;
+use std::collections::HashSet;
+use std::sync::Arc;
+use std::time::Instant;
+use swimos::agent::agent_model::AgentModel;
+use vcommon::sched::run_one;
+use vcommon::{Ctx, Leg};
+
+fn factory(cfg: &Cfg, log: Arc<TruthLog>) -> swimos_api::agent::BoxAgent {
+    let prog: Program = serde_json::from_str(&cfg.extra).unwrap_or_else(|_| Program::empty());
+    let lifecycle = C6Lifecycle { log, prog: Arc::new(prog) };
+    Box::new(AgentModel::new(C6Agent::default, lifecycle.into_lifecycle()))
+}
+
+fn cfg_for(p: &Program, ncmds: usize) -> Cfg {
+    let script = (0..ncmds).map(|_| (0usize, cmd("c", "go"))).collect();
+    let mut c = Cfg::basic(script, 1);
+    c.extra = serde_json::to_string(p).unwrap();
+    c
+}
+
+#[derive(Default)]
+struct ChunkOut {
+    programs: u64,
+    unreachable: u64,
+    executions: u64,
+    steps: u64,
+    nontrivial: u64,
+    failing: u64,
+    suspending: u64,
+    digests: Vec<u64>,
+    violations: Vec<(String, String, Cfg)>,
+    machinery: Vec<String>,
+    sample: Option<serde_json::Value>,
+}
+
+/// Run one program on the canonical schedule with `ncmds` commands.
+fn run_program(p: &Program, ncmds: usize, out: &mut ChunkOut, check_determinism: bool) {
+    let cfg = cfg_for(p, ncmds);
+    match run_one::<AsWorld>(&cfg, &[], false) {
+        Ok(rec) => {
+            out.executions += 1;
+            out.steps += rec.choices.len() as u64;
+            out.digests.push(rec.outcome.digest);
+            if rec.horizon_hit {
+                out.violations.push(("law=terminates (no quiescence within horizon)".into(), format!("program {}", p), cfg.clone()));
+            }
+            for (s, e) in rec.outcome.violations {
+                out.violations.push((s, e, cfg.clone()));
+            }
+            if check_determinism {
+                match run_one::<AsWorld>(&cfg, &[], false) {
+                    Ok(r2) => {
+                        out.executions += 1;
+                        out.steps += r2.choices.len() as u64;
+                        if r2.outcome.digest != rec.outcome.digest || r2.choices.len() != rec.choices.len() {
+                            out.machinery.push(format!("nondeterminism: two canonical runs of {} differ", p));
+                        }
+                    }
+                    Err(e) => out.machinery.push(e),
+                }
+            }
+        }
+        Err(e) => {
+            if e.starts_with("panic:") {
+                out.violations.push(("law=no_panic".into(), format!("program {}: {}", p, e), cfg));
+            } else {
+                out.machinery.push(e);
+            }
+        }
+    }
+}
+
+struct E4Spec {
+    name: &'static str,
+    /// Largest total AST size run with the one-command script / the two-command script.
+    max_size_1: usize,
+    max_size_2: usize,
+    wall_cap_s: f64,
+    with_start_stop: bool,
+}
+
+fn run_e4(ctx: &Ctx, spec: E4Spec) {
+    let t0 = Instant::now();
+    let mut trees = Trees::default();
+    let mut tot = ChunkOut::default();
+    let mut digests: HashSet<u64> = HashSet::new();
+    let mut per_size = vec![];
+    let mut completed_size: i64 = -1;
+    let mut capped = false;
+    let mut samples = vec![];
+    const CHUNK: u64 = 256;
+    for total in 0..=spec.max_size_1 {
+        let bl = blocks(&mut trees, total, spec.with_start_stop);
+        let mut work: Vec<(usize, u64, u64)> = vec![];
+        for (bi, b) in bl.iter().enumerate() {
+            let mut s = 0;
+            while s < b.count {
+                let e = (s + CHUNK).min(b.count);
+                work.push((bi, s, e));
+                s = e;
+            }
+        }
+        let two = total <= spec.max_size_2;
+        let results: Vec<Option<ChunkOut>> = vcommon::par_map(&work, vcommon::ncpu(), |wi, &(bi, s, e)| {
+            if t0.elapsed().as_secs_f64() > spec.wall_cap_s {
+                return None;
+            }
+            let mut out = ChunkOut::default();
+            for ix in s..e {
+                let p = bl[bi].program(ix);
+                if !p.reachable() {
+                    out.unreachable += 1;
+                    continue;
+                }
+                out.programs += 1;
+                let r = refint::expected(&p, 1, None);
+                if r.nested_bodies > 0 {
+                    out.nontrivial += 1;
+                }
+                if p.contains(&|h| matches!(h, H::Fail)) {
+                    out.failing += 1;
+                }
+                if p.contains(&|h| matches!(h, H::Suspend(..))) {
+                    out.suspending += 1;
+                }
+                let det = ix == s && wi % 8 == 0;
+                run_program(&p, 1, &mut out, det);
+                if two {
+                    run_program(&p, 2, &mut out, false);
+                }
+                if out.sample.is_none() && r.nested_bodies > 1 && wi % 97 == 0 {
+                    out.sample = Some(json!({"program": p.to_string(), "reference_trace_one_command": r.trace}));
+                }
+            }
+            Some(out)
+        });
+        let mut size_programs = 0u64;
+        let mut size_exec = 0u64;
+        let mut skipped = 0usize;
+        for r in results {
+            match r {
+                None => skipped += 1,
+                Some(o) => {
+                    size_programs += o.programs;
+                    size_exec += o.executions;
+                    tot.programs += o.programs;
+                    tot.unreachable += o.unreachable;
+                    tot.executions += o.executions;
+                    tot.steps += o.steps;
+                    tot.nontrivial += o.nontrivial;
+                    tot.failing += o.failing;
+                    tot.suspending += o.suspending;
+                    digests.extend(o.digests);
+                    for (sig, expl, cfg) in o.violations {
+                        ctx.violation(spec.name, &sig, json!({"cfg": serde_json::to_value(&cfg).unwrap(), "choices": [], "explanation": expl, "what": sig}));
+                    }
+                    if !o.machinery.is_empty() {
+                        eprintln!("machinery errors: {:?}", &o.machinery[..o.machinery.len().min(3)]);
+                        vcommon::machinery_failure("C06 E4: execution failed or was not deterministic (see above)");
+                    }
+                    if let Some(s) = o.sample {
+                        if samples.len() < 3 {
+                            samples.push(s);
+                        }
+                    }
+                }
+            }
+        }
+        per_size.push(json!({"total_size": total, "programs": size_programs, "executions": size_exec, "two_command_variant": two, "chunks_skipped_by_wall_cap": skipped}));
+        eprintln!("[C06] {} size {}: programs={} executions={} skipped_chunks={} t={:.1}s", spec.name, total, size_programs, size_exec, skipped, t0.elapsed().as_secs_f64());
+        if skipped > 0 {
+            capped = true;
+            break;
+        }
+        completed_size = total as i64;
+    }
+    ctx.add_leg(Leg {
+        name: spec.name.into(),
+        engine: "E4-programs".into(),
+        states: tot.programs,
+        transitions: tot.steps,
+        evaluations: tot.executions,
+        distinct_nontrivial: tot.nontrivial,
+        rule: "every assignment of handler programs (grammar in bounds.grammar) to the 10 lifecycle slots with the stated total AST size, each executed by the real agent + runtime on the canonical schedule and compared entry by entry with the reference interpreter; states = distinct programs; non-trivial = programs in whose execution at least one lane lifecycle handler with a non-empty body runs nested inside another handler".into(),
+        samples,
+        exhaustive: !capped,
+        bounds: json!({
+            "grammar": "H ::= Eff | SetV x | SetW x | Upd k x | Rem k | Clr | GetV | GetW | GetM | (GetV|GetW|GetEntry 1) >>= \\y.H (and_then) | H;H (followed_by) | Fail | Suspend H (not nested); x ::= literal unique per node | y; k in {1,2}; a slot's handler may only modify lanes later in c < v < w < m",
+            "slots": SLOTS,
+            "size": "number of AST nodes summed over all slots (Seq, Bind and Suspend count 1)",
+            "max_total_size_one_command": spec.max_size_1, "max_total_size_two_commands": spec.max_size_2,
+            "largest_total_size_completed": completed_size, "wall_cap_s": spec.wall_cap_s, "wall_cap_hit": capped,
+            "per_size": per_size, "programs_with_fail": tot.failing, "programs_with_suspend": tot.suspending,
+            "assignments_skipped_as_unreachable_duplicates": tot.unreachable,
+            "distinct_observation_digests": digests.len(),
+        }),
+        wall_s: t0.elapsed().as_secs_f64(),
+    });
+}
+
+/// The n smallest reachable programs (enumeration order).
+fn smallest(n: usize) -> Vec<Program> {
+    let mut trees = Trees::default();
+    let mut out = vec![];
+    for total in 0..8 {
+        for b in blocks(&mut trees, total, true) {
+            for ix in 0..b.count {
+                let p = b.program(ix);
+                if p.reachable() {
+                    out.push(p);
+                    if out.len() >= n {
+                        return out;
+                    }
+                }
+            }
+        }
+    }
+    out
+}
+
 fn main() {
-    vcommon::machinery_failure("C06: engine not built yet");
+    let ctx = Ctx::from_env("C06");
+    set_checker(refint::checker);
+    set_agent_factory(factory);
+    if let Some(r) = ctx.replay_request() {
+        replay(&ctx, r);
+        ctx.finish("model_checking", "replay");
+    }
+    if let Ok(p) = std::env::var("C06_COUNT") {
+        // debugging aid: size of the program space
+        let mut trees = Trees::default();
+        for total in 0..=p.parse::<usize>().unwrap_or(5) {
+            let bl = blocks(&mut trees, total, std::env::var("C06_SS").is_ok());
+            let all: u64 = bl.iter().map(|b| b.count).sum();
+            let reach: u64 = bl.iter().map(|b| (0..b.count).filter(|&i| b.program(i).reachable()).count() as u64).sum();
+            eprintln!("size {}: blocks={} assignments={} reachable={}", total, bl.len(), all, reach);
+            let mut by: std::collections::BTreeMap<(usize, usize, usize), u64> = Default::default();
+            for b in &bl {
+                let r = (0..b.count).filter(|&i| b.program(i).reachable()).count() as u64;
+                *by.entry((b.sizes[ROOT], b.sizes[START], b.sizes[STOP])).or_default() += r;
+            }
+            eprintln!("   by (root,start,stop) sizes: {:?}", by);
+        }
+        std::process::exit(0);
+    }
+    let quick = ctx.quick();
+    run_e4(&ctx, if quick { E4Spec { name: "e4-programs", max_size_1: 4, max_size_2: 3, wall_cap_s: 40.0, with_start_stop: true } } else { E4Spec { name: "e4-programs", max_size_1: 6, max_size_2: 5, wall_cap_s: 780.0, with_start_stop: true } });
+    // E1: the smallest programs under every schedule with a bounded number of deviations
+    let n = if quick { 300 } else { 2000 };
+    let mut cfgs = vec![];
+    for p in smallest(n) {
+        for ncmds in [1usize, 2] {
+            for budget in [64usize, 2] {
+                let mut c = cfg_for(&p, ncmds);
+                c.budget = budget;
+                cfgs.push(c);
+            }
+        }
+    }
+    run_grid(&ctx, GridSpec { name: "e1-schedules".into(), cfgs, bound: 2, max_exec_per_cfg: 50_000, wall_cap_s: if quick { 12.0 } else { 240.0 } });
+    ctx.assume("tokio select! start index and HashMap iteration order are fixed per VERIF_SEED (deterministic interposer), not enumerated");
+    ctx.assume("literals are unique per AST node (equal values arise only by repeating the command or through `y`)");
+    ctx.finish(
+        "model_checking",
+        "bounded exhaustive enumeration of handler programs executed on the real agent implementation and runtime, compared with a reference interpreter of the documented depth-first semantics; plus deviation-bounded schedule exploration of the smallest programs",
+    );
 }
